@@ -48,9 +48,11 @@ func RegisterCleaner(cleaner CleanerFunc) CancelFunc {
 	}
 
 	handlerCreated = true
+	// install the handler before returning: a signal arriving right after
+	// the registration must already run the cleaners
+	ch := make(chan os.Signal, 1)
+	signal.Notify(ch, syscall.SIGINT, syscall.SIGTERM, os.Interrupt)
 	go func() {
-		ch := make(chan os.Signal, 1)
-		signal.Notify(ch, syscall.SIGINT, syscall.SIGTERM, os.Interrupt)
 		<-ch
 		// Prevent un-terminated ^C character in terminal
 		fmt.Println()
